@@ -47,19 +47,20 @@ type Result struct {
 }
 
 type rewriter struct {
-	opt      Options
-	fset     *token.FileSet
-	info     *types.Info
-	pkg      *types.Package
-	file     *ast.File
-	fileBase string
-	funcs    []string
-	ord      map[string]int
-	uniq     int
-	needSim  bool
-	addImp   map[string]string // path -> name, imports to add to the current file
-	stats    map[string]int
-	err      error
+	opt       Options
+	fset      *token.FileSet
+	info      *types.Info
+	pkg       *types.Package
+	file      *ast.File
+	fileBase  string
+	funcs     []string
+	ord       map[string]int
+	uniq      int
+	needSim   bool
+	addImp    map[string]string // path -> name, imports to add to the current file
+	stats     map[string]int
+	err       error
+	selBlocks map[*ast.BlockStmt]bool
 }
 
 var stdImporter types.Importer
@@ -505,13 +506,22 @@ func (rw *rewriter) post(c *astutil.Cursor) bool {
 		}
 
 	case *ast.SelectStmt:
-		if l, ok := c.Parent().(*ast.LabeledStmt); ok {
-			if usesLabelBreak(n, l.Label.Name) {
-				rw.fail(n, "labelled break out of a select is not supported by the instrumentation pass")
-				return false
+		blk := rw.selectStmt(n)
+		if b, ok := blk.(*ast.BlockStmt); ok {
+			if rw.selBlocks == nil {
+				rw.selBlocks = map[*ast.BlockStmt]bool{}
 			}
+			rw.selBlocks[b] = true
 		}
-		c.Replace(rw.selectStmt(n))
+		c.Replace(blk)
+
+	case *ast.LabeledStmt:
+		// a label on a select ("break L" out of it): move it onto the switch that now holds the bodies
+		if b, ok := n.Stmt.(*ast.BlockStmt); ok && rw.selBlocks[b] && len(b.List) > 0 {
+			last := len(b.List) - 1
+			b.List[last] = &ast.LabeledStmt{Label: n.Label, Stmt: b.List[last]}
+			c.Replace(b)
+		}
 	}
 	return true
 }
